@@ -27,6 +27,8 @@ import (
 
 	"github.com/EdgeCast/vflow/ipfix"
 	netflow9 "github.com/EdgeCast/vflow/netflow/v9"
+	"reflect"
+	"unsafe"
 )
 
 var sdColTime = regexp.MustCompile(`"ColTime":\d+`)
@@ -95,23 +97,23 @@ func TestVerifShutdownFullQueue(t *testing.T) {
 	case "ipfix":
 		i := NewIPFIX()
 		p, qlen, cacheFile, mq = i, func() int { return len(ipfixUDPCh) }, opts.IPFIXTplCacheFile, ipfixMQCh
-		udpCount = func() uint64 { return atomic.LoadUint64(&i.stats.UDPCount) }
-		decCount = func() uint64 { return atomic.LoadUint64(&i.stats.DecodedCount) }
+		udpCount = func() uint64 { return sdCounter(&i.stats, "UDPCount") }
+		decCount = func() uint64 { return sdCounter(&i.stats, "DecodedCount") }
 	case "netflow9":
 		i := NewNetflowV9()
 		p, qlen, cacheFile, mq = i, func() int { return len(netflowV9UDPCh) }, opts.NetflowV9TplCacheFile, netflowV9MQCh
-		udpCount = func() uint64 { return atomic.LoadUint64(&i.stats.UDPCount) }
-		decCount = func() uint64 { return atomic.LoadUint64(&i.stats.DecodedCount) }
+		udpCount = func() uint64 { return sdCounter(&i.stats, "UDPCount") }
+		decCount = func() uint64 { return sdCounter(&i.stats, "DecodedCount") }
 	case "netflow5":
 		i := NewNetflowV5()
 		p, qlen, mq = i, func() int { return len(netflowV5UDPCh) }, netflowV5MQCh
-		udpCount = func() uint64 { return atomic.LoadUint64(&i.stats.UDPCount) }
-		decCount = func() uint64 { return atomic.LoadUint64(&i.stats.DecodedCount) }
+		udpCount = func() uint64 { return sdCounter(&i.stats, "UDPCount") }
+		decCount = func() uint64 { return sdCounter(&i.stats, "DecodedCount") }
 	default:
 		s := NewSFlow()
 		p, qlen, mq = s, func() int { return len(sFlowUDPCh) }, sFlowMQCh
-		udpCount = func() uint64 { return atomic.LoadUint64(&s.stats.UDPCount) }
-		decCount = func() uint64 { return atomic.LoadUint64(&s.stats.DecodedCount) }
+		udpCount = func() uint64 { return sdCounter(&s.stats, "UDPCount") }
+		decCount = func() uint64 { return sdCounter(&s.stats, "DecodedCount") }
 	}
 	backlog := os.Getenv("VERIF_MODE") == "backlog"
 	var dgrams struct {
@@ -299,4 +301,14 @@ func TestVerifShutdownFullQueue(t *testing.T) {
 type proto_ interface {
 	run()
 	shutdown()
+}
+
+// sdCounter reads a counter of a protocol's statistics atomically, whatever unsigned width it has
+func sdCounter(stats interface{}, name string) uint64 {
+	f := reflect.ValueOf(stats).Elem().FieldByName(name)
+	p := unsafe.Pointer(f.UnsafeAddr())
+	if f.Kind() == reflect.Uint32 {
+		return uint64(atomic.LoadUint32((*uint32)(p)))
+	}
+	return atomic.LoadUint64((*uint64)(p))
 }
